@@ -773,6 +773,13 @@ def prepare_seth(t, op):
     return val
 
 
+def bit_arg(b, i):
+    """the argument of a bit write: bits are truth values — a boolean view, a plain bool, or any other truthy / falsy object"""
+    if b:
+        return [boolean(1), True, 1, 2, 255, uint8(4), 'x', -1][i % 8]
+    return [boolean(0), False, 0, None, uint8(0), '', 0, False][i % 8]
+
+
 def apply_op(t, x, op):
     k = op[0]
     tk = kind(t)
@@ -783,14 +790,14 @@ def apply_op(t, x, op):
         elif tk == 'cont':
             setattr(x, 'f%d' % i, elem_arg(t[1:][i], op[2]) if i < len(t) - 1 else 0)
         elif tk in ('bv', 'bl'):
-            x[i] = boolean(int(op[2]))
+            x[i] = bit_arg(int(op[2]), i)
         else:
             raise ValueError("unsupported")
     elif k == 'app':
         if tk == 'list':
             x.append(elem_arg(t[1], op[1]))
         elif tk == 'bl':
-            x.append(boolean(int(op[1])))
+            x.append(bit_arg(int(op[1]), len(x)))
         else:
             raise ValueError("unsupported")
     elif k == 'pop':
@@ -1431,6 +1438,9 @@ def run_path(t, v, keys, method_names=False):
             p = (T / key) if p is None else (p / key)
             prefixes.append((p, tt, k))
             tt = nav_sexp_type(tt, k)
+        if p is None:
+            from remerkleable.core import Path
+            p = Path(T)       # the empty path: the anchor itself
         return p
     try:
         p = build()
